@@ -857,7 +857,7 @@ def run_history(r, fails, tags, n_ops):
 def run_all(tier, seed, extra=None):
     r = random.Random(seed * 48611 + 1)
     fails, tags = [], collections.Counter()
-    n_hist = {"quick": 40, "thorough": 1200}[tier]
+    n_hist = {"quick": 40, "thorough": 6000}[tier]
     cases, expects, ctxs = [], [], []
     for hi in range(n_hist):
         c = corpus_history(r, fails, tags) if hi == 0 else corpus_history2(r, fails, tags) if hi == 1 else corpus_history3(r, fails, tags) if hi == 2 else run_history(r, fails, tags, r.choice([8, 14, 24]))
@@ -884,7 +884,7 @@ def run_dict(tier, seed):
     """C19 on hybrid objects: histories as in run_all, then to_dict / from_dict of every live instance"""
     r = random.Random(seed * 48611 + 7)
     fails, tags = [], collections.Counter()
-    n_hist = {"quick": 30, "thorough": 800}[tier]
+    n_hist = {"quick": 30, "thorough": 4000}[tier]
     lines, expect, ctxs = [], [], []
     for _ in range(n_hist):
         c = run_history(r, fails, tags, r.choice([6, 10, 16]))
